@@ -30,6 +30,54 @@ type sweepCase struct {
 	entries []sweepEntry
 	nds     bool
 	ticks   int
+	stalled bool          // the connection is stalled during the first sweep (Send blocks), see stalledSweepWorld
+	gate    chan struct{} // closed to resume the connection
+	extra   []string      // names beyond histUniverse (eds)
+}
+
+// stalledSweepWorld: more idle resources than the request channel holds, and a connection that stalls (Send blocks)
+// just before the sweep. The cleaner withdraws one name per request; when the channel is full it waits for room. Once the
+// connection resumes every withdrawal must have reached the control plane: the last request lists what is still
+// subscribed, nothing else ("a request without it is sent", C19).
+func stalledSweepWorld(c *ctx, n int) *sweepCase {
+	w, err := newWorld(worldOpts{ndsNotRequired: true, fetchTimeout: time.Millisecond})
+	if err != nil {
+		fmt.Println("C19: world:", err)
+		return nil
+	}
+	sc := &sweepCase{h: &histRun{c: c, w: w}, t0: time.Now(), ticks: 1, stalled: true}
+	obs0 := sc.h.observe(0)
+	sc.h.steps = append(sc.h.steps, obj{"o": "obs0", "obs": obs0})
+	names := make([]string, n)
+	for i := range names {
+		names[i] = fmt.Sprintf("i%04d", i)
+	}
+	sc.extra = append(append([]string{}, names...), "used")
+	all := append(append([]string{}, names...), "used")
+	sc.h.step(obj{"o": "burst", "rt": "eds", "names": all}, func() {
+		for _, nm := range all {
+			_ = w.get(rtOf("eds"), nm)
+		}
+	})
+	sc.h.steps[len(sc.h.steps)-1].(obj)["now"] = 100
+	var slots [][3]string
+	var anys []*anypb.Any
+	for _, nm := range all {
+		slots = append(slots, [3]string{"good", nm, nm + "#1"})
+		anys = append(anys, anyStamped("eds", nm, nm+"#1"))
+	}
+	sc.h.step(obj{"o": "push", "rt": "eds", "v": "v1", "nonce": "n1", "slots": slotsJSON(slots)}, func() {
+		w.feed(mkResp(urlOf("eds"), "v1", "n1", anys))
+	})
+	sc.h.steps[len(sc.h.steps)-1].(obj)["now"] = 100
+	for _, nm := range names {
+		sc.entries = append(sc.entries, sweepEntry{"eds", nm, "old"})
+		ok := w.m.VerifBackdate(rtOf("eds"), nm, 40*time.Second)
+		sc.h.steps = append(sc.h.steps, obj{"o": "backdate", "rt": "eds", "n": nm, "now": 60, "applied": ok})
+	}
+	sc.entries = append(sc.entries, sweepEntry{"eds", "used", "fresh"})
+	sc.entries = append(sc.entries, sweepEntry{"lds", xdsresource.ReservedLdsResourceName, "plain"})
+	return sc
 }
 
 func (sc *sweepCase) getStep(rt, n string, now int) {
@@ -53,6 +101,9 @@ func runC19(c *ctx) {
 	}
 	var cases []*sweepCase
 	version := 0
+	// the world whose connection stalls during its sweep is set up alongside the others (its set-up takes a few seconds)
+	ssCh := make(chan *sweepCase, 1)
+	go func() { ssCh <- stalledSweepWorld(c, 1100) }()
 	for i := 0; i < nWorlds; i++ {
 		nds := i%2 == 0
 		w, err := newWorld(worldOpts{ndsNotRequired: !nds, fetchTimeout: 3 * time.Millisecond})
@@ -127,20 +178,26 @@ func runC19(c *ctx) {
 		}
 		c.count("worlds", 1)
 	}
+	if ss := <-ssCh; ss != nil {
+		cases = append([]*sweepCase{ss}, cases...) // created first: its tick comes first
+		c.count("worlds.stalled-sweep", 1)
+	}
 	for tick := 1; tick <= ticks; tick++ {
 		// just before the tick: look the fresh entries up again
-		var latest time.Time
 		for _, sc := range cases {
-			if sc.t0.After(latest) {
-				latest = sc.t0
-			}
-		}
-		time.Sleep(time.Until(latest.Add(time.Duration(tick)*30*time.Second - 1200*time.Millisecond)))
-		for _, sc := range cases {
+			// each manager has its own clock: 1.2 s before ITS tick (the cases are in creation order)
+			time.Sleep(time.Until(sc.t0.Add(time.Duration(tick)*30*time.Second - 1200*time.Millisecond)))
 			for _, e := range sc.entries {
 				if e.class == "fresh" && (tick == 1) {
 					sc.getStep(e.rt, e.name, 100+30*tick-1)
 				}
+			}
+			if sc.stalled && tick == 1 {
+				// the connection stalls now: the first request of the sweep will block in Send
+				sc.gate = make(chan struct{})
+				sc.h.w.ads.mu.Lock()
+				sc.h.w.ads.streams[len(sc.h.w.ads.streams)-1].sendGate = sc.gate
+				sc.h.w.ads.mu.Unlock()
 			}
 		}
 		// wait for every manager's tick and observe
@@ -154,6 +211,16 @@ func runC19(c *ctx) {
 		}
 		wg.Wait()
 		for _, sc := range cases {
+			if sc.stalled && sc.gate != nil {
+				// the cleaner is parked inside the sweep (it holds the manager lock, the channel is full): resume
+				sc.h.w.ads.mu.Lock()
+				for _, st := range sc.h.w.ads.streams {
+					st.sendGate = nil
+				}
+				sc.h.w.ads.mu.Unlock()
+				close(sc.gate)
+				sc.gate = nil
+			}
 			mark := sc.h.w.mark() // requests of the sweep are already on the wire: observe since the previous step
 			_ = mark
 			sc.h.w.settle()
@@ -165,6 +232,9 @@ func runC19(c *ctx) {
 	// a later lookup of an evicted name subscribes again and obtains the current value
 	for _, sc := range cases {
 		for _, e := range sc.entries {
+			if sc.stalled {
+				break
+			}
 			if e.class == "old" && e.name != xdsresource.ReservedLdsResourceName && e.rt != "lds" {
 				sc.getStep(e.rt, e.name, 100+30*ticks+1)
 				version++
@@ -189,6 +259,9 @@ func runC19(c *ctx) {
 		uni := obj{}
 		for rt, ns := range histUniverse {
 			uni[rt] = ns
+		}
+		if len(sc.extra) > 0 {
+			uni["eds"] = append(append([]string{}, histUniverse["eds"]...), sc.extra...)
 		}
 		pre := []interface{}{}
 		if sc.nds {
